@@ -59,15 +59,20 @@ Proof.
 Qed.
 
 (* ------------------------------------------------------------------ what the proofs need from the live tables *)
-Definition value_classes : list cls :=
+Definition base_value_classes : list cls :=
   [CNone; CBool; CInt; CFloat; CStr; CBytes; CPath; CFile FFile; CFile FText; CFile FDir;
    CList; CTuple; CSet; CFrozenset; CDict].
+(* every class a value can have: the builtins and the registered (sub)classes KSub n *)
+Definition value_classes (T : tables) : list cls :=
+  (base_value_classes ++ map KSub (seq 0 (List.length (t_subs T))))%list.
 Definition container_classes : list cls := [CList; CTuple; CSet; CFrozenset; CDict].
 
-(* issubclass is reflexive on the classes values have, and the builtin containers have no modelled subclasses *)
+(* issubclass is reflexive on the classes values have, and among the builtin classes the containers have no
+   subclasses *)
 Definition tables_wf (T : tables) : bool :=
-  forallb (fun c => sub T c c) value_classes &&
-  forallb (fun o => forallb (fun c => implb (sub T c o) (cls_eqb c o)) value_classes) container_classes.
+  forallb (fun c => sub T c c) (value_classes T) &&
+  forallb (fun o => forallb (fun c => implb (sub T c o) (cls_eqb c o)) base_value_classes) container_classes &&
+  negb (sub T CList CStr) && negb (sub T CList CBytes).       (* a plain list is not a string *)
 
 Lemma cls_eqb_eq a b : cls_eqb a b = true <-> a = b.
 Proof.
@@ -75,59 +80,88 @@ Proof.
   - destruct a, b; cbn; try discriminate; try reflexivity.
     + destruct f, f0; cbn; try discriminate; reflexivity.
     + intros H. apply Nat.eqb_eq in H. now subst.
+    + intros H. apply Nat.eqb_eq in H. now subst.
   - intros ->. destruct b; cbn; try reflexivity.
     + destruct f; reflexivity.
     + apply Nat.eqb_refl.
+    + apply Nat.eqb_refl.
 Qed.
 
-Lemma class_of_value v : In (class_of v) value_classes.
+Lemma base_class_value v : In (base_class v) base_value_classes.
 Proof.
-  destruct v as [| | | | | | |f| | |fr|]; cbn; try tauto.
+  destruct v as [| | | | | | |f| | |k fr|]; cbn; try tauto.
   - destruct f; tauto.
   - destruct fr; tauto.
 Qed.
 
-Lemma class_of_not_any v : class_of v <> KAny.
-Proof. destruct v as [| | | | | | |f| | |fr|]; cbn; try discriminate. destruct fr; discriminate. Qed.
+(* type(v) is the builtin class of its shape, or a registered class with that shape *)
+Lemma class_of_cases T v :
+  class_of T v = base_class v \/
+  exists n, class_of T v = KSub n /\ nth_error (t_subs T) n = Some (base_class v).
+Proof.
+  unfold class_of. destruct (tag_of v) as [n|]; [|now left].
+  destruct (nth_error (t_subs T) n) as [b|] eqn:E; [|now left].
+  destruct (cls_eqb b (base_class v)) eqn:Eb; [|now left].
+  apply cls_eqb_eq in Eb. subst b. right. eauto.
+Qed.
+
+Lemma class_of_value T v : In (class_of T v) (value_classes T).
+Proof.
+  unfold value_classes. apply in_or_app.
+  destruct (class_of_cases T v) as [->|[n [-> Hn]]].
+  - left. apply base_class_value.
+  - right. apply in_map, in_seq. split; [lia|]. cbn. apply nth_error_Some. congruence.
+Qed.
+
+Lemma base_class_not_any v : base_class v <> KAny.
+Proof. destruct v as [| | | | | | |f| | |k fr|]; cbn; try discriminate. destruct fr; discriminate. Qed.
+
+Lemma class_of_not_any T v : class_of T v <> KAny.
+Proof. destruct (class_of_cases T v) as [->|[n [-> _]]]; [apply base_class_not_any|discriminate]. Qed.
 
 Section WithTables.
 Variable T : tables.
 Variable W : world.
 Hypothesis WF : tables_wf T = true.
 
-Lemma sub_refl_value v : sub T (class_of v) (class_of v) = true.
+Lemma sub_refl_value v : sub T (class_of T v) (class_of T v) = true.
 Proof.
-  unfold tables_wf in WF. apply andb_true_iff in WF. destruct WF as [H _].
+  pose proof WF as H. unfold tables_wf in H. rewrite !andb_true_iff in H. destruct H as [[[H _] _] _].
   rewrite forallb_forall in H. apply H, class_of_value.
 Qed.
 
-Lemma sub_container v o : In o container_classes -> sub T (class_of v) o = true -> class_of v = o.
+Lemma sub_container_base c o :
+  In c base_value_classes -> In o container_classes -> sub T c o = true -> c = o.
 Proof.
-  intros Ho Hs. unfold tables_wf in WF. apply andb_true_iff in WF. destruct WF as [_ H].
+  intros Hc Ho Hs. pose proof WF as H. unfold tables_wf in H. rewrite !andb_true_iff in H. destruct H as [[[_ H] _] _].
   rewrite forallb_forall in H. specialize (H o Ho). rewrite forallb_forall in H.
-  specialize (H _ (class_of_value v)). rewrite Hs in H. cbn in H. now apply cls_eqb_eq.
+  specialize (H _ Hc). rewrite Hs in H. cbn in H. now apply cls_eqb_eq.
 Qed.
 
 Lemma py_isinstance_is_instance v c : py_isinstance T v c = is_instance T v c.
 Proof.
   unfold py_isinstance, is_instance, is_subclass, sub.
-  destruct c; try reflexivity; pose proof (class_of_not_any v); destruct (class_of v); try reflexivity; congruence.
+  destruct c; try reflexivity; pose proof (class_of_not_any T v); destruct (class_of T v); try reflexivity; congruence.
 Qed.
 
-Lemma is_instance_container v o :
-  In o container_classes -> is_instance T v o = true -> class_of v = o.
+Lemma plain_list_not_vstr l : is_vstr T (VList None l) = false.
 Proof.
-  intros Ho H. apply sub_container; [assumption|].
-  unfold is_instance, is_subclass in H. pose proof (class_of_not_any v).
-  destruct Ho as [<-|[<-|[<-|[<-|[<-|[]]]]]]; destruct (class_of v); try congruence; exact H.
+  pose proof WF as H. unfold tables_wf in H. rewrite !andb_true_iff in H. destruct H as [[_ H1] H2].
+  apply negb_true_iff in H1, H2. unfold is_vstr, is_instance. cbn. now rewrite H1, H2.
+Qed.
+
+Lemma is_instance_self v : is_instance T v (class_of T v) = true.
+Proof.
+  unfold is_instance, is_subclass. pose proof (class_of_not_any T v) as Hn. pose proof (sub_refl_value v) as Hr.
+  destruct (class_of T v); try exact Hr; congruence.
 Qed.
 
 (* ------------------------------------------------------------------ constructors return their own class *)
-Lemma mk_set_class fr l v : mk_set fr l = Ok v -> v = VSet fr (dedupe l []).
+Lemma mk_set_class fr l v : mk_set fr l = Ok v -> v = VSet None fr (dedupe l []).
 Proof. unfold mk_set. destruct (forallb hashable l); [|discriminate]. now inversion 1. Qed.
 
 Lemma construct_container_class c items v :
-  construct_container c items = Ok v -> class_of v = c.
+  construct_container c items = Ok v -> class_of T v = c.
 Proof.
   destruct c; cbn; try discriminate; intros H.
   - now inversion H.
@@ -136,16 +170,16 @@ Proof.
   - apply mk_set_class in H. now subst.
 Qed.
 
-Lemma fileset_ctor_class f ps v : fileset_ctor W f ps = Ok v -> class_of v = CFile f.
+Lemma fileset_ctor_val f ps v : fileset_ctor W f ps = Ok v -> exists p, v = VFile f p.
 Proof.
   unfold fileset_ctor. destruct (existsb _ _); [discriminate|].
   destruct (dedupe_str _ _) as [|p [|q r]]; try discriminate.
-  destruct (w_check W f p); [discriminate|]. now inversion 1.
+  destruct (w_check W f p); [discriminate|]. inversion 1. eauto.
 Qed.
 
-Lemma construct_class c v v' : construct W c v = Ok v' -> class_of v' = c /\ In c value_classes.
+Lemma construct_class c v v' : construct W c v = Ok v' -> class_of T v' = c /\ In c base_value_classes.
 Proof.
-  intros H. assert (class_of v' = c) as E.
+  intros H. assert (class_of T v' = c /\ tag_of v' = None) as [E Et].
   { destruct c; cbn in H; try discriminate.
     - now inversion H.
     - destruct v; try discriminate; now inversion H.
@@ -154,16 +188,17 @@ Proof.
     - destruct v; try discriminate; try (now inversion H);
         try (destruct (bytes_of _); [|discriminate]; now inversion H).
     - destruct v; try discriminate; now inversion H.
-    - destruct (is_pathish v).
-      + eapply fileset_ctor_class; eassumption.
+    - assert (exists p, v' = VFile f p) as [p ->]; [|split; reflexivity].
+      destruct (is_pathish v).
+      + eapply fileset_ctor_val; eassumption.
       + destruct v; try discriminate;
-          (destruct (all_some _); [|discriminate]; eapply fileset_ctor_class; eassumption).
-    - destruct (iter v) as [l|]; [|discriminate]. exact (construct_container_class CList l v' H).
-    - destruct (iter v) as [l|]; [|discriminate]. exact (construct_container_class CTuple l v' H).
-    - destruct (iter v) as [l|]; [|discriminate]. exact (construct_container_class CSet l v' H).
-    - destruct (iter v) as [l|]; [|discriminate]. exact (construct_container_class CFrozenset l v' H).
+          (destruct (all_some _); [|discriminate]; eapply fileset_ctor_val; eassumption).
+    - destruct (iter v) as [l|]; [|discriminate]. cbn in H. now inversion H.
+    - destruct (iter v) as [l|]; [|discriminate]. cbn in H. now inversion H.
+    - destruct (iter v) as [l|]; [|discriminate]. apply mk_set_class in H. now subst.
+    - destruct (iter v) as [l|]; [|discriminate]. apply mk_set_class in H. now subst.
     - destruct v; try discriminate; now inversion H. }
-  split; [exact E|]. rewrite <- E. apply class_of_value.
+  split; [exact E|]. rewrite <- E. unfold class_of. rewrite Et. apply base_class_value.
 Qed.
 
 Variable sac : bool.
@@ -175,17 +210,13 @@ Proof.
   - inversion 1; subst. now rewrite py_isinstance_is_instance.
   - destruct (check_coercible T sac v c); [|discriminate]. intros H.
     apply construct_class in H. destruct H as [<- _].
-    rewrite py_isinstance_is_instance. unfold is_instance, is_subclass.
-    pose proof (class_of_not_any v') as Hn. pose proof (sub_refl_value v') as Hr.
-    destruct (class_of v'); try exact Hr; congruence.
+    rewrite py_isinstance_is_instance. apply is_instance_self.
 Qed.
 
-Lemma enter_container o v c :
-  In o container_classes -> enter T sac o v = Ok c -> c = o.
+Lemma enter_true o v : enter T sac o v = Ok true -> is_instance T v o = true.
 Proof.
-  intros Ho. unfold enter. destruct (is_instance T v o) eqn:E.
-  - inversion 1; subst. now apply is_instance_container.
-  - destruct (check_coercible T sac v o); [|discriminate]. now inversion 1.
+  unfold enter. destruct (is_instance T v o); [reflexivity|].
+  destruct (check_coercible T sac v o); discriminate.
 Qed.
 
 Lemma dedupe_incl l : forall acc x, In x (dedupe l acc) -> In x l \/ In x acc.
@@ -197,50 +228,92 @@ Proof.
     + intros H. destruct (IH _ _ H) as [|[->|]]; auto.
 Qed.
 
-Lemma build_items c r v :
-  build c r = Ok v -> exists items, r = Ok items /\ construct_container c items = Ok v.
-Proof. unfold build. destruct r; [|discriminate]. eauto. Qed.
-
-Lemma container_conforms (P : val -> Prop) c items v :
-  Forall P items -> construct_container c items = Ok v ->
-  match c with
-  | CList => exists l, v = VList l /\ Forall P l
-  | CTuple => exists l, v = VTuple l /\ Forall P l /\ List.length l = List.length items
-  | CSet => exists l, v = VSet false l /\ Forall P l
-  | CFrozenset => exists l, v = VSet true l /\ Forall P l
-  | _ => True
+(* the shape of what a container pattern stores *)
+Definition shaped (o : cls) (v' : val) (l' : list val) : Prop :=
+  match o with
+  | CList => exists k, v' = VList k l'
+  | CTuple => exists k, v' = VTuple k l'
+  | CSet => exists k, v' = VSet k false l'
+  | CFrozenset => exists k, v' = VSet k true l'
+  | _ => False
   end.
+
+Lemma is_instance_same_class v v' o : class_of T v' = class_of T v -> is_instance T v' o = is_instance T v o.
+Proof. unfold is_instance. now intros ->. Qed.
+
+(* the items a container of class o keeps of the list it is built from *)
+Definition is_setc (o : cls) : bool := match o with CSet | CFrozenset => true | _ => false end.
+Definition stored (o : cls) (items : list val) : list val := if is_setc o then dedupe items [] else items.
+
+Lemma stored_incl o items : incl (stored o items) items.
 Proof.
-  intros HP. destruct c; cbn; try tauto; intros H.
-  - inversion H; eauto.
-  - inversion H; eauto.
-  - apply mk_set_class in H. subst. eexists; split; [reflexivity|].
-    rewrite Forall_forall in *. intros x Hx. apply dedupe_incl in Hx. destruct Hx as [Hx|[]]. auto.
-  - apply mk_set_class in H. subst. eexists; split; [reflexivity|].
-    rewrite Forall_forall in *. intros x Hx. apply dedupe_incl in Hx. destruct Hx as [Hx|[]]. auto.
+  unfold stored. destruct (is_setc o); [|apply incl_refl].
+  intros x Hx. apply dedupe_incl in Hx. destruct Hx as [Hx|[]]. exact Hx.
+Qed.
+
+Lemma keep_shape o v items v' :
+  keep o v items = Ok v' ->
+  class_of T v' = class_of T v /\ shaped o v' (stored o items) /\ (is_setc o = true -> forallb hashable items = true).
+Proof.
+  unfold keep. destruct o; try discriminate; destruct v as [| | | | | | | |k l0|k l0|k fr l0|]; try discriminate.
+  - inversion 1; subst. split; [reflexivity|]. split; [exists k; reflexivity|discriminate].
+  - inversion 1; subst. split; [reflexivity|]. split; [exists k; reflexivity|discriminate].
+  - destruct fr; try discriminate. destruct (forallb hashable items) eqn:Eh; [|discriminate]. inversion 1; subst.
+    split; [reflexivity|]. split; [exists k; reflexivity|reflexivity].
+  - destruct fr; try discriminate. destruct (forallb hashable items) eqn:Eh; [|discriminate]. inversion 1; subst.
+    split; [reflexivity|]. split; [exists k; reflexivity|reflexivity].
+Qed.
+
+Lemma construct_container_shape o items v' :
+  construct_container o items = Ok v' ->
+  shaped o v' (stored o items) /\ (is_setc o = true -> forallb hashable items = true).
+Proof.
+  destruct o; cbn; try discriminate; intros H.
+  - inversion H; subst. split; [exists None; reflexivity|discriminate].
+  - inversion H; subst. split; [exists None; reflexivity|discriminate].
+  - unfold mk_set in H. destruct (forallb hashable items) eqn:Eh; [|discriminate]. inversion H; subst.
+    split; [exists None; reflexivity|reflexivity].
+  - unfold mk_set in H. destruct (forallb hashable items) eqn:Eh; [|discriminate]. inversion H; subst.
+    split; [exists None; reflexivity|reflexivity].
+Qed.
+
+(* what [build] returns: an instance of the origin, of the origin's shape, holding (some of) the coerced items *)
+Lemma build_shape o v inst r v' :
+  build o v inst r = Ok v' -> (inst = true -> is_instance T v o = true) ->
+  is_instance T v' o = true /\
+  exists items, r = Ok items /\ shaped o v' (stored o items) /\ (is_setc o = true -> forallb hashable items = true).
+Proof.
+  unfold build. destruct r as [items|]; [|discriminate]. destruct inst; intros H Hi.
+  - destruct (keep_shape _ _ _ _ H) as [Hc Hl]. split.
+    + rewrite (is_instance_same_class _ _ _ Hc). now apply Hi.
+    + eauto.
+  - pose proof (construct_container_shape _ _ _ H) as Hl. split.
+    + rewrite <- (construct_container_class _ _ _ H). apply is_instance_self.
+    + eauto.
+Qed.
+
+Lemma coerce_seq_shape o f v v' :
+  coerce_seq T sac o f v = Ok v' ->
+  is_instance T v' o = true /\
+  exists items l, iter v = Ok items /\ map_res f items = Ok l /\ shaped o v' (stored o l) /\
+                  (is_setc o = true -> forallb hashable l = true).
+Proof.
+  unfold coerce_seq. destruct (enter T sac o v) as [inst|] eqn:E; [|discriminate].
+  destruct (iter v) as [items|]; [|discriminate]. intros H.
+  apply build_shape in H; [|intros ->; now apply enter_true in E].
+  destruct H as [Hi [l [Hl Hr]]]. split; [exact Hi|]. exists items, l. tauto.
 Qed.
 
 Lemma coerce_seq_conforms (P : val -> Prop) o f v v' :
-  In o [CList; CTuple; CSet; CFrozenset] ->
   (forall x y, f x = Ok y -> P y) ->
   coerce_seq T sac o f v = Ok v' ->
-  match o with
-  | CList => exists l, v' = VList l /\ Forall P l
-  | CTuple => exists l, v' = VTuple l /\ Forall P l
-  | CSet => exists l, v' = VSet false l /\ Forall P l
-  | CFrozenset => exists l, v' = VSet true l /\ Forall P l
-  | _ => True
-  end.
+  py_isinstance T v' o = true /\ exists l', shaped o v' l' /\ Forall P l'.
 Proof.
-  intros Ho Hf. unfold coerce_seq.
-  destruct (enter T sac o v) as [c|] eqn:E; [|discriminate].
-  apply enter_container in E; [|cbn in *; tauto]. subst c.
-  destruct (iter v) as [items|]; [|discriminate]. intros H.
-  apply build_items in H. destruct H as [l [Hl Hc]].
+  intros Hf H. apply coerce_seq_shape in H. destruct H as [Hi [items [l [_ [Hl [Hs _]]]]]].
+  rewrite py_isinstance_is_instance. split; [exact Hi|]. exists (stored o l). split; [exact Hs|].
   apply map_res_ok in Hl.
   assert (Forall P l) as HP by (eapply Forall2_right; [exact Hl|]; intros x y _ HR; exact (Hf _ _ HR)).
-  pose proof (container_conforms P o l v' HP Hc) as R.
-  destruct o; try exact R. destruct R as [l0 [? [? _]]]. eauto.
+  rewrite Forall_forall in *. intros x Hx. apply HP. now apply (stored_incl o l).
 Qed.
 
 Lemma dict_set_forall (A B : val -> Prop) d k x :
@@ -266,6 +339,21 @@ Proof.
     eapply IH; [|exact H]. apply dict_set_forall; eauto.
 Qed.
 
+(* what coerce_dict returns *)
+Lemma coerce_dict_shape fk fx v v' :
+  coerce_dict T sac fk fx v = Ok v' ->
+  is_instance T v' CDict = true /\
+  exists k kv g d, v = VDict k kv /\ dict_res fk fx kv [] = Ok d /\ v' = VDict g d.
+Proof.
+  unfold coerce_dict. destruct (enter T sac CDict v) as [inst|] eqn:E; [|discriminate].
+  destruct v as [| | | | | | | | | | |k kv]; try discriminate.
+  destruct (dict_res fk fx kv []) as [d|] eqn:Ed; [|discriminate]. inversion 1; subst. split.
+  - destruct inst.
+    + apply enter_true in E. exact E.
+    + apply (is_instance_self (VDict None d)).
+  - eauto 8.
+Qed.
+
 Lemma zip_res_conforms (P : ty -> val -> Prop) (g : ty -> val -> result val) :
   forall ts items l,
     Forall (fun a => forall x y, g a x = Ok y -> P a y) ts ->
@@ -287,6 +375,20 @@ Proof.
     eapply IH; eauto.
 Qed.
 
+(* what coerce_tuple returns *)
+Lemma coerce_tuple_shape fs v v' :
+  coerce_tuple T sac fs v = Ok v' ->
+  is_instance T v' CTuple = true /\
+  exists items l k, iter v = Ok items /\ List.length fs = List.length items /\ zip_res fs items = Ok l /\
+                    v' = VTuple k l.
+Proof.
+  unfold coerce_tuple. destruct (enter T sac CTuple v) as [inst|] eqn:E; [|discriminate].
+  destruct (iter v) as [items|]; [|discriminate].
+  destruct (Nat.eqb _ _) eqn:El; [|discriminate]. apply Nat.eqb_eq in El. intros H.
+  apply build_shape in H; [|intros ->; now apply enter_true in E].
+  destruct H as [Hi [l [Hl [[k Hs] _]]]]. split; [exact Hi|]. cbn in Hs. eauto 8.
+Qed.
+
 Lemma union_conforms_in ts v a :
   In a ts -> conforms T a v ->
   (fix go (ts : list ty) : Prop := match ts with [] => False | a :: r => conforms T a v \/ go r end) ts.
@@ -299,41 +401,35 @@ Proof.
   induction t as [c|a IHa|ts IHts|a IHa|k x IHk IHx|fr a IHa|ts IHts|a IHa] using ty_ind';
     intros v v' H; cbn [coerce] in H; cbn [conforms].
   - eapply coerce_basic_conforms; eassumption.
-  - eapply (coerce_seq_conforms (conforms T a) CList) in H; cbn; auto.
+  - destruct (coerce_seq_conforms (conforms T a) CList _ _ _ IHa H) as [Hi [l' [[k ->] HF]]]. eauto.
   - (* fixed-length tuple *)
-    unfold coerce_tuple in H.
-    destruct (enter T sac CTuple v) as [c|] eqn:E; [|discriminate].
-    apply enter_container in E; [|cbn; tauto]. subst c.
-    destruct (iter v) as [items|]; [|discriminate].
-    destruct (Nat.eqb _ _) eqn:El; [|discriminate].
-    rewrite map_length in El. apply Nat.eqb_eq in El.
-    apply build_items in H. destruct H as [l [Hl Hc]]. cbn in Hc. inversion Hc; subst.
-    exists l; split; [reflexivity|].
+    destruct (coerce_tuple_shape _ _ _ H) as [Hi [items [l [k [_ [Hlen [Hz ->]]]]]]].
+    rewrite py_isinstance_is_instance. split; [exact Hi|]. exists k, l. split; [reflexivity|].
+    rewrite map_length in Hlen.
     eapply (zip_res_conforms (conforms T) (coerce T W sac)); eauto.
-  - eapply (coerce_seq_conforms (conforms T a) CTuple) in H; cbn; auto.
+  - destruct (coerce_seq_conforms (conforms T a) CTuple _ _ _ IHa H) as [Hi [l' [[k ->] HF]]]. eauto.
   - (* dict *)
-    unfold coerce_dict in H.
-    destruct (enter T sac CDict v) as [c|] eqn:E; [|discriminate].
-    destruct v; try discriminate.
-    destruct (dict_res _ _ kv []) as [d|] eqn:Ed; [|discriminate]. inversion H; subst.
-    exists d; split; [reflexivity|].
+    destruct (coerce_dict_shape _ _ _ _ H) as [Hi [g0 [kv [g [d [-> [Hd ->]]]]]]].
+    rewrite py_isinstance_is_instance. split; [exact Hi|]. exists g, d. split; [reflexivity|].
     eapply (dict_res_forall (conforms T k) (conforms T x)); eauto.
-  - destruct fr;
-      [eapply (coerce_seq_conforms (conforms T a) CFrozenset) in H|eapply (coerce_seq_conforms (conforms T a) CSet) in H];
-      cbn; auto.
+  - destruct fr.
+    + destruct (coerce_seq_conforms (conforms T a) CFrozenset _ _ _ IHa H) as [Hi [l' [[k ->] HF]]]. eauto.
+    + destruct (coerce_seq_conforms (conforms T a) CSet _ _ _ IHa H) as [Hi [l' [[k ->] HF]]]. eauto.
   - (* union *)
     apply first_ok_ok in H. destruct H as [a [Ha Hc]].
     rewrite Forall_forall in IHts. eapply union_conforms_in; eauto.
   - (* MultiInputObj *)
     unfold coerce_multi in H.
+    assert (forall l, py_isinstance T (VList None l) CList = true) as Hlist.
+    { intros l. rewrite py_isinstance_is_instance. apply (is_instance_self (VList None l)). }
     assert (forall r, wrap1 r = Ok v' -> (forall x, r = Ok x -> conforms T a x) ->
-                      exists l, v' = VList l /\ Forall (conforms T a) l) as Hw.
-    { intros r Hr Hx. destruct r as [x|]; [|discriminate]. inversion Hr; subst.
-      exists [x]; split; [reflexivity|]. constructor; [auto|constructor]. }
-    destruct (is_vstr v).
+                      py_isinstance T v' CList = true /\ exists k l, v' = VList k l /\ Forall (conforms T a) l) as Hw.
+    { intros r Hr Hx. destruct r as [x|]; [|discriminate]. inversion Hr; subst. split; [apply Hlist|].
+      exists None, [x]; split; [reflexivity|]. constructor; [auto|constructor]. }
+    destruct (is_vstr T v).
     + eapply Hw; [exact H|]. intros; eapply IHa; eassumption.
     + destruct (match iter v with Ok items => map_res (coerce T W sac a) items | Err e => Err e end) as [l|e] eqn:E.
-      * inversion H; subst. exists l; split; [reflexivity|].
+      * inversion H; subst. split; [apply Hlist|]. exists None, l; split; [reflexivity|].
         destruct (iter v) as [items|]; [|discriminate]. apply map_res_ok in E.
         eapply Forall2_right; [exact E|]. intros x y _ HR; exact (IHa _ _ HR).
       * destruct e; try discriminate. eapply Hw; [exact H|]. intros; eapply IHa; eassumption.
